@@ -303,7 +303,7 @@ func (w *response) CurrentWriterStream() uint {
 // ResetWriterStream of MultistreamWriter interface
 func (w *response) ResetWriterStream() {
 	if msc, isMulti := w.conn.rwc.(MultistreamConn); isMulti {
-		msc.CurrentWriterStream()
+		msc.ResetWriterStream()
 	}
 }
 
